@@ -5,6 +5,9 @@ HERE="$(cd "$(dirname "${BASH_SOURCE[0]}")" && pwd)"
 export CARGO_NET_OFFLINE=true
 REPO="${VERIF_REPO:-/repo}"
 ln -sfn "$REPO" "$HERE/sim/repo-link"
+. "$HERE/tools/repo_stamp.sh"
+repo_stamp_harness "$HERE" "$REPO"
+repo_stamp_cli "$HERE" "$REPO"
 cd "$HERE/sim"
 env -u CARGO_BUILD_TARGET_DIR CARGO_TARGET_DIR="$HERE/sim/target" RUSTFLAGS="--cfg packing_verif -Awarnings" cargo build --release --offline --workspace
 cd "$REPO"
